@@ -657,6 +657,12 @@ class OldInterp:
                 a = args[0]
                 if isinstance(a, tuple) and a[0] == "tt":
                     return "Token." + KINDS[a[1]][-1]
+                if isinstance(a, AToken):
+                    return self.call_method(a, "__str__", [])      # the token class's own text form
+                if isinstance(a, PredObj):
+                    return self.call_method(a, "__str__", [])
+                if not isinstance(a, (str, int, float, bool)) and a is not None:
+                    raise Unsupported(f"{fi.site(n)}: str() of {a!r}")
                 return str(a)
             raise Unsupported(f"{fi.site(n)}: call {unparse(f)}")
         if isinstance(n, ast.IfExp):
